@@ -8,14 +8,14 @@ from xck.check import check as xcheck
 
 def cc_probe():
     S = build('plain')
-    out = os.path.join(VERIF, 'build/bin/csumprobe')
+    out = os.path.join(BUILD, 'bin/csumprobe')
     r = subprocess.run(['gcc', '-O1', '-g', '-w', '-I%s/lib' % S, '-o', out, os.path.join(VERIF, 'engines/csumprobe.c'),
                         '%s/lib/ext2fs/libext2fs.a' % S, '%s/lib/et/libcom_err.a' % S, '-lpthread'], stdout=subprocess.PIPE, stderr=subprocess.STDOUT, text=True)
     if r.returncode: log(r.stdout); raise SystemExit('csumprobe does not compile against the tree')
     return out
 def cc_crcx():
     S = build('asan')
-    out = os.path.join(VERIF, 'build/bin/crcx')
+    out = os.path.join(BUILD, 'bin/crcx')
     r = subprocess.run(['gcc', '-O1', '-g', '-w', '-fsanitize=address', '-I%s/lib' % S, '-I' + os.path.join(VERIF, 'engines'), '-o', out, os.path.join(VERIF, 'engines/crcx.c'),
                         '%s/lib/ext2fs/libext2fs.a' % S, '%s/lib/et/libcom_err.a' % S, '-lpthread'], stdout=subprocess.PIPE, stderr=subprocess.STDOUT, text=True)
     if r.returncode: log(r.stdout); raise SystemExit('crcx does not compile against the tree')
